@@ -321,7 +321,9 @@ func coordinate(id, tier string) int {
 					continue
 				}
 			}
-			fmt.Fprintf(os.Stderr, "worker %d failed (%v)\n%s\n", i, r.err, tail(string(logb), 3000))
+			if !infra {
+				fmt.Fprintf(os.Stderr, "worker %d failed (%v)\n%s\n", i, r.err, tail(string(logb), 3000))
+			}
 			infra = true
 			continue
 		}
